@@ -11,7 +11,7 @@ AM_NOTE = ("Trusted base: the IR abstract machine (vx/am.py) as the meaning of t
            "models in vx/refmodel.py; bounds as stated in the evidence file.")
 
 CHECKS = {
-    "C01": dict(engine="KX", ref="4/C01", technique="bounded-exhaustive explicit-state exploration: programs x formats x "
+    "C01": dict(engine="KX+RT", ref="4/C01", technique="bounded-exhaustive explicit-state exploration: programs x formats x "
                 "dimension vectors x all joint sparsity structures, executed on an IR abstract machine with "
                 "indeterminate values, compared with a tensor-algebra reference model",
                 text="Every evaluate kernel of the bounded program/format space is executed on every joint input "
@@ -40,10 +40,12 @@ CHECKS = {
                 text="Memory safety, input immutability, overflow freedom and termination are state invariants of "
                      "the abstract machine, evaluated on every transition of every explored execution.",
                 note=AM_NOTE),
-    "C07": dict(engine="KX", ref="4/C07", technique="bounded-exhaustive differential execution of unoptimised vs "
-                "peephole-optimised IR on the abstract machine over all structures (kernels)",
-                text="Every generated kernel before/after the peephole pass on every explored state: same return "
-                     "value, output, heap contents; optimised access set is a subset.",
+    "C07": dict(engine="KX+TX", ref="4/C07", technique="bounded-exhaustive differential execution of unoptimised vs "
+                "peephole-optimised IR on the abstract machine: (a) every generated kernel over all structures, (b) "
+                "every well-typed IR expression/statement tree within the bound over all small environments",
+                text="Every generated kernel before/after the peephole pass on every explored state, and every IR tree "
+                     "of the bounded tree space on every environment where the original is safe: same return value, "
+                     "state and heap contents; optimised access set is a subset; no new fault.",
                 note=AM_NOTE + " The unoptimised module comes from the TENSORA_VERIF_NO_PEEPHOLE hook."),
     "C16": dict(engine="KX", ref="4/C16", technique="bounded-exhaustive exploration with loop-iteration/statement "
                 "counters of the IR abstract machine compared across dimension scalings x1..x10^4",
@@ -52,12 +54,13 @@ CHECKS = {
                 note=AM_NOTE),
 }
 
-CHECKS["C06"] = dict(engine="NX", ref="4/C06", technique="conformance replay: every abstract-machine trace of the "
+CHECKS["C06"] = dict(engine="NX+TX", ref="4/C06", technique="conformance replay: every abstract-machine trace of the "
                      "bounded kernel/structure space is re-executed natively (gcc ASan+UBSan on the emitted C, clang-14 "
                      "ASan on the emitted LLVM, llvmlite MCJIT) and compared bit for bit",
-                     text="All kernels of the base program space x all formats x all joint structures within the cap are "
-                          "driven through evaluate; assemble; compute; compute' on four executors; any divergence of a "
-                          "return value or array is a violation. This replay is also what binds the AM to the code.",
+                     text="Kernels of the base program space x all formats x all joint structures within the cap are "
+                          "driven through evaluate; assemble; compute; compute' on four executors, and every IR tree of "
+                          "the printer space is printed, compiled (gcc, MCJIT) and run on 128 environments; any "
+                          "divergence of a return value or array is a violation. This replay also binds the AM to the code.",
                      note="Trusted base: gcc 12, clang-14, llvmlite/LLVM, the C driver (native/driver.c); exact-value input "
                           "alphabet (rounding covered by a separate sub-sweep).")
 CHECKS["C09"] = dict(engine="DX", ref="4/C09", technique="explicit-state breadth-first search over Tensor histories on the "
@@ -172,6 +175,11 @@ def main():
              "kind_free_text": "native conformance harness: gcc/clang sanitizer builds + MCJIT vs abstract machine"},
             {"name": "DX", "path": "vx/checks/c09.py", "serves_properties": ["C09"],
              "kind_free_text": "breadth-first search over Tensor construction/conversion histories"},
+            {"name": "TX", "path": "vx/tx.py", "serves_properties": ["C06", "C07"],
+             "kind_free_text": "IR tree explorer: all well-typed expression/statement trees within a bound x all small "
+                               "environments (peephole equivalence on the AM; printers vs gcc and MCJIT)"},
+            {"name": "RT", "path": "vx/rtsweep.py", "serves_properties": ["C01", "C02", "C03"],
+             "kind_free_text": "the kernel explorer's oracles through the real tensor_method call path (raw C arrays)"},
             {"name": "KX", "path": "vx/kx.py", "serves_properties": ["C01", "C02", "C03", "C04", "C05", "C07", "C16"],
              "kind_free_text": "kernel explorer: programs x formats x dimensions x joint structures x capacities"},
         ],
